@@ -292,13 +292,27 @@ func (ip *Interp) model2(fn *ssa.Function, name string, args []AV) (AV, bool) {
 		}
 		sq, ok := seqArg.(*SeqV)
 		if !ok {
-			ood("%s over %s", name, avString(seqArg))
+			// an iterator written in the module (func(yield func(T) bool)): the generic library body is evaluated instead
+			// (package slices is interpreted like module code)
+			return nil, false
 		}
 		cur = append(cur, sq.Items...)
 		if len(cur) == 0 {
 			return args[0], true
 		}
 		return ip.mkSlice(cur), true
+	case "maps.Clone", "maps.clone":
+		if mv, ok := args[0].(*MapV); ok {
+			nm := &MapV{M: map[string]AV{}, Keys: append([]string{}, mv.Keys...), Zero: mv.Zero, KeyV: map[string]AV{}}
+			for k, v := range mv.M {
+				nm.M[k] = copyVal(v)
+			}
+			for k, v := range mv.KeyV {
+				nm.KeyV[k] = v
+			}
+			return nm, true
+		}
+		return args[0], true
 	case "slices.Grow", "slices.Clip":
 		return args[0], true
 	case "sort.Strings", "slices.Sort":
@@ -621,11 +635,11 @@ func (ip *Interp) model2(fn *ssa.Function, name string, args []AV) (AV, bool) {
 			if b, isB := peekBuf(p); isB {
 				switch fn.Name() {
 				case "Cap":
-					return kInt(int64(max(64, len(b.S)))), true
+					return kInt(int64(max(64, len(b.S)+b.Spare))), true
 				case "Available":
-					return kInt(0), true
+					return kInt(int64(b.Spare)), true
 				case "AvailableBuffer":
-					return &SliceV{B: &backing{}, Lo: 0, Hi: 0, Cap: 0}, true
+					return &SliceV{B: &backing{aliasBuf: b, aliasBase: len(b.S), aliasCap: b.Spare}, Lo: 0, Hi: 0, Cap: b.Spare}, true
 				}
 			}
 		}
